@@ -1,6 +1,6 @@
 (* Props/C04.v — the theorems that decide property C04.  Statements only; every
    proof is [exact <lemma>].  Do not weaken: tools/pins/C04.sha256 pins them. *)
-From CKB Require Import Arith.Since Arith.SinceProofs Tx.Verify Tx.VerifyProofs Tx.Resolve Tx.ResolveProofs Tx.Accept Tx.AcceptProofs.
+From CKB Require Import Arith.Since Arith.SinceProofs Tx.Verify Tx.VerifyProofs Tx.Resolve Tx.ResolveProofs Tx.Accept Tx.AcceptProofs Tx.Recheck Tx.RecheckProofs.
 Local Open Scope N_scope.
 
 (* ---- since: bit layout ----------------------------------------------------- *)
@@ -209,6 +209,120 @@ Theorem resolve_history_independent : forall s1 s2 p hc t,
   end.
 Proof. exact resolve_seen_order_irrelevant. Qed.
 
+(* ---- re-validation (ResolvedTransaction::check) -------------------------------- *)
+(* A transaction resolved in context A is re-validated in a context B.  An out
+   point designates one cell for ever (where both contexts know it live, its
+   content is the same; dead / unknown may differ arbitrarily).  With
+   SYSTEM_CELL unset, check accepts exactly when a fresh resolve_transaction in
+   B returns the SAME resolved transaction, with the same new seen_inputs ... *)
+Theorem recheck_agrees_uncached : forall seenA pA hcA seenB pB hcB t r sA,
+  resolve_transaction seenA pA hcA t = Ok (r, sA) ->
+  (forall o d d', pA o = Live d -> pB o = Live d' -> d = d') ->
+  (forall s, recheck None seenB pB hcB t r = Ok s <-> resolve_transaction seenB pB hcB t = Ok (r, s)) /\
+  (forall r' s', resolve_transaction seenB pB hcB t = Ok (r', s') -> r' = r).
+Proof. exact recheck_agrees_uncached_thm. Qed.
+
+(* ... i.e. the verdict of check is the verdict of a fresh resolution in B *)
+Theorem recheck_verdict_uncached : forall seenA pA hcA seenB pB hcB t r sA,
+  resolve_transaction seenA pA hcA t = Ok (r, sA) ->
+  (forall o d d', pA o = Live d -> pB o = Live d' -> d = d') ->
+  ((exists s, recheck None seenB pB hcB t r = Ok s) <-> (exists x, resolve_transaction seenB pB hcB t = Ok x)) /\
+  (forall s r' s', recheck None seenB pB hcB t r = Ok s -> resolve_transaction seenB pB hcB t = Ok (r', s') ->
+                   r' = r /\ s' = s).
+Proof. exact recheck_uncached_verdict. Qed.
+
+(* With SYSTEM_CELL holding c (resolution in A went through the cache too): the
+   same, under what the cached branches rely on — in B every out point the map
+   names (cached code cells, cached group cells, their members) is live and not
+   in seen_inputs, and a cached group lists what the group cell's data says.
+   Then check = fresh cached resolution = fresh resolution that asks the
+   provider for everything. *)
+Theorem recheck_agrees_cached : forall c seenA pA hcA seenB pB hcB t r sA,
+  resolve_transaction_sys c seenA pA hcA t = Ok (r, sA) ->
+  (forall o d d', pA o = Live d -> pB o = Live d' -> d = d') ->
+  ((forall o, sys_code c o = true -> usable seenB pB o) /\
+   (forall g subs, sys_group c g = Some subs ->
+      ~ In g seenB /\ (exists d, pB g = Live d /\ parse_group d = Some subs) /\ Forall (usable seenB pB) subs)) ->
+  (forall s, recheck (Some c) seenB pB hcB t r = Ok s <-> resolve_transaction_sys c seenB pB hcB t = Ok (r, s)) /\
+  (forall s, recheck (Some c) seenB pB hcB t r = Ok s <-> resolve_transaction seenB pB hcB t = Ok (r, s)) /\
+  (forall r' s', resolve_transaction seenB pB hcB t = Ok (r', s') -> r' = r).
+Proof. exact recheck_agrees_cached_thm. Qed.
+
+Theorem recheck_verdict_cached : forall c seenA pA hcA seenB pB hcB t r sA,
+  resolve_transaction_sys c seenA pA hcA t = Ok (r, sA) ->
+  (forall o d d', pA o = Live d -> pB o = Live d' -> d = d') ->
+  sys_ok c seenB pB ->
+  ((exists s, recheck (Some c) seenB pB hcB t r = Ok s) <-> (exists x, resolve_transaction seenB pB hcB t = Ok x)) /\
+  (forall s r' s', recheck (Some c) seenB pB hcB t r = Ok s -> resolve_transaction seenB pB hcB t = Ok (r', s') ->
+                   r' = r /\ s' = s) /\
+  resolve_transaction_sys c seenB pB hcB t = resolve_transaction seenB pB hcB t.
+Proof. exact recheck_cached_verdict. Qed.
+
+(* where everything the map names is usable, resolving through the cache is
+   resolving without it — verdict, result and error *)
+Theorem syscache_transparent : forall c seen p hc t,
+  sys_ok c seen p -> resolve_transaction_sys c seen p hc t = resolve_transaction seen p hc t.
+Proof. exact resolve_transaction_sys_transparent. Qed.
+
+(* an error of check names an out point of the resolved transaction that is
+   really gone in B (spent so far / dead, resp. unknown), or an invalid header
+   dep — whatever SYSTEM_CELL holds, no hypothesis *)
+Theorem recheck_error_blame : forall sys seen p hc t r e,
+  recheck sys seen p hc t r = Err e ->
+  match e with
+  | EDead o => In o (r_inputs r ++ r_deps r ++ r_groups r) /\ (In o seen \/ p o = Dead)
+  | EUnknown o => In o (r_inputs r ++ r_deps r ++ r_groups r) /\ ~ In o seen /\ p o = Unknown
+  | EInvalidHeader h => In h (t_hdeps t) /\ hc h = false
+  | _ => False
+  end.
+Proof. exact recheck_blame_thm. Qed.
+
+(* the checked_cells memo of check never changes a verdict *)
+Theorem recheck_memo_irrelevant : forall seen p os memo,
+  Forall (fun o => exists d, p o = Live d) memo ->
+  ((exists m, check_list seen p memo os = Ok m) <-> (exists m, check_list seen p [] os = Ok m)).
+Proof. exact check_list_memo_irrelevant. Qed.
+
+Theorem recheck_agrees_nonvacuous :
+  resolve_transaction_sys ex_sys [] ex_pA any_header ex_tx = Ok (ex_rtx, [(1, 0)]) /\
+  resolve_transaction [] ex_pA any_header ex_tx = Ok (ex_rtx, [(1, 0)]) /\
+  immutable ex_pA (kill (3, 0) ex_pA) /\ sys_ok ex_sys [] (kill (3, 0) ex_pA) /\
+  recheck (Some ex_sys) [] (kill (3, 0) ex_pA) any_header ex_tx ex_rtx = Err (EDead (3, 0)) /\
+  recheck None [] (kill (3, 0) ex_pA) any_header ex_tx ex_rtx = Err (EDead (3, 0)) /\
+  resolve_transaction [] (kill (3, 0) ex_pA) any_header ex_tx = Err (EDead (3, 0)) /\
+  immutable ex_pA ex_pA /\ sys_ok ex_sys [] ex_pA /\
+  recheck (Some ex_sys) [] ex_pA any_header ex_tx ex_rtx = Ok [(1, 0)] /\
+  recheck None [] ex_pA any_header ex_tx ex_rtx = Ok [(1, 0)].
+Proof. exact RecheckProofs.recheck_agrees_nonvacuous. Qed.
+
+(* the SYSTEM_CELL branch must re-check a dep-group cell that is not a cached
+   one: the variant that does not (recheck_seeded) accepts a transaction whose
+   dep-group cell was consumed, all hypotheses of recheck_agrees_cached holding *)
+Theorem recheck_skips_user_group_refuted :
+  exists c seenA pA hcA seenB pB hcB t r sA,
+    resolve_transaction_sys c seenA pA hcA t = Ok (r, sA) /\ immutable pA pB /\ sys_ok c seenB pB /\
+    recheck_seeded c seenB pB hcB t r = Ok (r_inputs r ++ seenB) /\
+    resolve_transaction seenB pB hcB t = Err (EDead (51, 0)) /\
+    resolve_transaction_sys c seenB pB hcB t = Err (EDead (51, 0)) /\
+    recheck (Some c) seenB pB hcB t r = Err (EDead (51, 0)).
+Proof. exact recheck_skips_user_group_refuted_thm. Qed.
+
+(* the hypothesis on SYSTEM_CELL is needed: with a cell the map names consumed
+   (impossible on a chain whose system cells cannot be spent) (1) check and the
+   cached resolution accept what the provider-based resolution rejects, (2) check
+   accepts what even the cached resolution rejects — (90,4) is a member of a
+   cached group, not a cached code cell, and also a plain code dep *)
+Theorem recheck_without_system_cells_live_refuted :
+  (resolve_transaction_sys ex_sys [] ex_pA any_header ex_tx = Ok (ex_rtx, [(1, 0)]) /\
+   recheck (Some ex_sys) [] (kill (90, 1) ex_pA) any_header ex_tx ex_rtx = Ok [(1, 0)] /\
+   resolve_transaction_sys ex_sys [] (kill (90, 1) ex_pA) any_header ex_tx = Ok (ex_rtx, [(1, 0)]) /\
+   resolve_transaction [] (kill (90, 1) ex_pA) any_header ex_tx = Err (EDead (90, 1))) /\
+  (resolve_transaction_sys ex_sys [] ex_pA any_header ex_tx2 = Ok (ex_rtx2, [(1, 0)]) /\
+   recheck (Some ex_sys) [] (kill (90, 4) ex_pA) any_header ex_tx2 ex_rtx2 = Ok [(1, 0)] /\
+   resolve_transaction_sys ex_sys [] (kill (90, 4) ex_pA) any_header ex_tx2 = Err (EDead (90, 4))).
+Proof. exact recheck_without_system_cells_live_refuted_thm. Qed.
+
+
 Redirect "out/C04.since_decode_total_exact" Print Assumptions since_decode_total_exact.
 Redirect "out/C04.since_encode_decode" Print Assumptions since_encode_decode.
 Redirect "out/C04.since_decode_encode" Print Assumptions since_decode_encode.
@@ -235,3 +349,13 @@ Redirect "out/C04.resolve_block_nonvacuous" Print Assumptions resolve_block_nonv
 Redirect "out/C04.accept_iff_rules" Print Assumptions accept_iff_rules.
 Redirect "out/C04.accept_context_only" Print Assumptions accept_context_only.
 Redirect "out/C04.resolve_history_independent" Print Assumptions resolve_history_independent.
+Redirect "out/C04.recheck_agrees_uncached" Print Assumptions recheck_agrees_uncached.
+Redirect "out/C04.recheck_verdict_uncached" Print Assumptions recheck_verdict_uncached.
+Redirect "out/C04.recheck_agrees_cached" Print Assumptions recheck_agrees_cached.
+Redirect "out/C04.recheck_verdict_cached" Print Assumptions recheck_verdict_cached.
+Redirect "out/C04.syscache_transparent" Print Assumptions syscache_transparent.
+Redirect "out/C04.recheck_error_blame" Print Assumptions recheck_error_blame.
+Redirect "out/C04.recheck_memo_irrelevant" Print Assumptions recheck_memo_irrelevant.
+Redirect "out/C04.recheck_agrees_nonvacuous" Print Assumptions recheck_agrees_nonvacuous.
+Redirect "out/C04.recheck_skips_user_group_refuted" Print Assumptions recheck_skips_user_group_refuted.
+Redirect "out/C04.recheck_without_system_cells_live_refuted" Print Assumptions recheck_without_system_cells_live_refuted.
